@@ -352,6 +352,20 @@ func decodeGuarded(data []byte, dst any) (out decodeOut) {
 	}
 }
 
+func beyondRFC3339(v ttlv.Value) bool {
+	switch x := v.Value.(type) {
+	case time.Time:
+		return x.Unix() > 253402300799
+	case ttlv.Struct:
+		for _, k := range x {
+			if beyondRFC3339(k) {
+				return true
+			}
+		}
+	}
+	return false
+}
+
 func marshal(v any) (b []byte, pan string) {
 	defer func() {
 		if r := recover(); r != nil {
@@ -450,7 +464,8 @@ func TestReplay(t *testing.T) {
 			}
 			// (b') C18 for untyped values through the text encodings: what the library writes for the decoded value is read back by
 			// the library and written again identically
-			if d.Outcome == "value" && len(spec) <= 4096 {
+			// (instants after 9999-12-31T23:59:59Z exist in the binary encoding only: RFC 3339, the text form of a Date-Time, ends there)
+			if d.Outcome == "value" && len(spec) <= 4096 && !beyondRFC3339(d.Value) {
 				for _, h := range []struct {
 					name string
 					m    func(any) []byte
